@@ -304,6 +304,95 @@ def run_propagation(task):
     return out
 
 
+def run_async_malformed(task):
+    """Malformed check-lua / check-ai rules among healthy blocks and validators: validators::run must
+    fail.  task = (case, L, position).  Cases: `lua-path` / `ai-condition`: every value of L bytes over
+    {space, tab, A} (blank ones must fail, others must not); `lua-missing`, `lua-empty` (script without
+    validate), `ai-no-key`, `lua-pattern`, `ai-pattern` (uncompilable regex)."""
+    case, L, pos = task
+    from . import c18, c19
+    prog = driver.load_program()
+    stats = PathStats()
+    f_run = prog.find_fn('run')
+    f_env = prog.find_method('OpenAiClient', 'new_from_env')
+    f_with = prog.find_method('CheckAiValidator', 'with_client')
+    out = dict(violations=[], samples=[], obligations=0, cover={}, panic_paths=0)
+    holder = {}
+    roles = set()
+
+    def run_path(I):
+        calls, log = [], []
+        val = tuple(I.fresh_byte('v%d' % i, (32, 9, 65)) for i in range(L))
+        holder['val'] = val
+        lua_attr = {'check-lua': b'H.lua'}
+        ai_attr = {'check-ai': b'Hcond'}
+        scripts = {72: ('nil',), 65: ('nil',)}
+        replies = {'default': ('text', tuple(b'OK'))}
+        key = tuple(b'k')
+        if case == 'lua-path':
+            lua_attr = {'check-lua': SString(val, I.new_alloc())}
+        elif case == 'ai-condition':
+            ai_attr = {'check-ai': SString(val, I.new_alloc())}
+        elif case == 'lua-missing':
+            scripts[72] = ('read_error',)
+        elif case == 'lua-empty':
+            scripts[72] = ('no_validate',)
+        elif case == 'ai-no-key':
+            key = None if L == 0 else ()
+        elif case == 'lua-pattern':
+            lua_attr['check-lua-pattern'] = b'(unclosed'
+        elif case == 'ai-pattern':
+            ai_attr['check-ai-pattern'] = b'[a-'
+        bad_lua = mk_bwc(prog, mk_block(prog, I, dict(lua_attr, name=b'bad'), (5, 3), (5, 20), (3, 5), (5, 30), (7, 1)))
+        bad_ai = mk_bwc(prog, mk_block(prog, I, dict(ai_attr, name=b'bad2'), (9, 3), (9, 20), (3, 5), (9, 30), (11, 1)))
+        healthy = mk_bwc(prog, mk_block(prog, I, {'name': b'ok', 'keep-sorted': b''}, (1, 3), (1, 20), (3, 5), (1, 30), (3, 1)))
+        blocks = [healthy, bad_lua, bad_ai] if pos == 0 else [bad_ai, bad_lua, healthy]
+        src = tuple(b'#S\nab\n#E\n')
+        other = mk_bwc(prog, mk_block(prog, I, {'name': b'o2', 'check-lua': b'A.lua'}, (1, 3), (1, 20), (3, 5), (1, 30), (3, 1)))
+        ctx = mk_context(prog, I, [(b'f0.py', src, blocks), (b'f1.py', src, [other])])
+        c18.install_lua(I, prog, scripts, calls)
+        c19.install_openai(I, prog, {b'BLOCKWATCH_AI_API_KEY': key, b'BLOCKWATCH_AI_MODEL': None, b'BLOCKWATCH_AI_API_URL': None}, replies, log)
+        I.task_order = lambda n, step: I.concretize(I.fresh_int('ord%d_%d' % (step, n), 0, n - 1), 'task order') if n > 1 else 0
+        client = I.call_fn(f_env, [])
+        ai = Ref(Cell(I.call_fn(f_with, [client])), ())
+        lua = Ref(Cell(Struct('CheckLuaValidator', ())), ())
+        ks = Ref(Cell(Struct('KeepSortedValidator', ())), ())
+        return I.call_fn(f_run, [ctx, VecVal([ks]), VecVal([lua, ai] if pos == 0 else [ai, lua])])
+
+    def viol(I, cond, role, summary):
+        out['obligations'] += 1
+        if role in roles:
+            return
+        if isinstance(cond, bool):
+            cond = z3.BoolVal(cond)
+        if I.check(cond):
+            roles.add(role)
+            m = I.solver.model()
+            out['violations'].append(dict(role=role, summary=summary, case='async', kind=case, L=L,
+                                          value=model_bytes(m, holder['val']).decode('latin1')))
+
+    for I, pk, val in explore(prog, models.M, run_path, stats=stats, max_paths=5000):
+        if pk == 'panic':
+            out['panic_paths'] += 1
+            viol(I, True, 'panic', 'panic: %s' % val.msg[:120])
+            continue
+        v = holder['val']
+        if case in ('lua-path', 'ai-condition'):
+            blank = zand([z3.Or(x == 32, x == 9) for x in v])
+            if val.v == 0:
+                viol(I, blank, 'malformed-rule-accepted', '%s with a blank value is accepted' % case)
+            else:
+                # a non-blank path names a script that does not exist -> also an error; a non-blank condition is fine
+                if case == 'ai-condition':
+                    viol(I, z3.Not(blank), 'valid-rule-rejected', 'a non-blank check-ai condition fails the run')
+        else:
+            if val.v == 0:
+                viol(I, True, 'malformed-rule-accepted', '%s: the run succeeded' % case)
+        out['cover']['case:async'] = 1
+    out.update(Agg(PROP, 'x').stats_from(stats))
+    return out
+
+
 # ------------------------------------------------------------------ replay
 
 def confirm(binary, v, idx):
@@ -372,6 +461,44 @@ def confirm(binary, v, idx):
         if v.get('confirmed') and v.get('replay'):
             pass
         return v
+    if case == 'async':
+        kind, val = v['kind'], v.get('value', '')
+        if '"' in val or '\n' in val:
+            return v
+        lua_attr, ai_attr, env = 'check-lua="ok.lua"', 'check-ai="cond"', {'BLOCKWATCH_AI_API_KEY': 'k', 'BLOCKWATCH_AI_API_URL': 'http://127.0.0.1:9/v1'}
+        files = {'ok.lua': b'function validate(ctx, content)\n  return nil\nend\n', 'empty.lua': b'-- nothing\n'}
+        want_fail = v['role'] == 'malformed-rule-accepted'
+        ai = False
+        if kind == 'lua-path':
+            lua_attr = 'check-lua="%s"' % val
+        elif kind == 'ai-condition':
+            ai_attr, ai = 'check-ai="%s"' % val, True
+        elif kind == 'lua-missing':
+            lua_attr = 'check-lua="missing.lua"'
+        elif kind == 'lua-empty':
+            lua_attr = 'check-lua="empty.lua"'
+        elif kind == 'ai-no-key':
+            ai = True
+            env.pop('BLOCKWATCH_AI_API_KEY')
+            if v.get('L'):
+                env['BLOCKWATCH_AI_API_KEY'] = ''
+        elif kind == 'lua-pattern':
+            lua_attr += ' check-lua-pattern="(unclosed"'
+        elif kind == 'ai-pattern':
+            ai_attr, ai = ai_attr + ' check-ai-pattern="[a-"', True
+        body = '# <block name="ok" keep-sorted>\na\nb\n# </block>\n# <block name="bad" %s>\nab\n# </block>\n' % lua_attr
+        if ai:
+            body += '# <block name="bad2" %s>\nab\n# </block>\n' % ai_attr
+        files['f0.py'] = body.encode('latin1')
+        r = run_scan(binary, files, ['**/*.py'], env_extra=env)
+        failed = r['code'] != 0 and r['diags'] is None
+        v['observed'] = dict(code=r['code'], stderr=r['stderr'][-200:])
+        if kind == 'ai-condition' and not want_fail:
+            return v        # a healthy condition needs a live endpoint to be shown healthy: not replayed here
+        if failed != want_fail:
+            v['confirmed'] = True
+            v['replay'] = save_replay(PROP, 'async-%s-%d' % (kind, idx), files, "'**/*.py'", 'env %s; expected a failed run; %s' % (env, v['summary']), v)
+        return v
     if case == 'propagation':
         files = {'f.py': b'# <block keep-sorted="sideways" keep-unique line-count="<9">\na\na\n# </block>\n'}
         r = run_scan(binary, files, ['f.py'])
@@ -413,6 +540,10 @@ def main(tier):
     results += pmap(run_bad_regex, rtasks, chunksize=4)
     names = ['KeepSortedValidator', 'KeepUniqueValidator', 'LineCountValidator']
     results += pmap(run_propagation, [list(p) for p in itertools.permutations(names)], chunksize=2)
+    atasks = [(c, L, p) for c in ('lua-path', 'ai-condition') for L in range(0, 3 if tier == 'quick' else 4) for p in (0, 1)]
+    atasks += [(c, 0, p) for c in ('lua-missing', 'lua-empty', 'ai-no-key', 'lua-pattern', 'ai-pattern') for p in (0, 1)]
+    atasks.append(('ai-no-key', 1, 0))
+    results += pmap(run_async_malformed, atasks)
     # line-count expressions: the C09 harness family A (symbolic expression), malformed/overflow verdicts only
     from . import c09
     lc_tasks = [('A', L, (b'', b'a', b''), False) for L in range(0, 4)]
@@ -468,7 +599,7 @@ def main(tier):
                      'Lua/AI malformations (async validators) and the process exit code itself are outside'],
         stubs=['WinnowBlockTagParser::next (reference scanner; the symbolic value is spliced into the parsed attribute map)',
                'regex::Regex::new (reference model)', 'serde_json::to_value'],
-        must_cover=['case:direction', 'case:format', 'case:affects', 'case:severity', 'case:numeric-keys', 'case:regex', 'case:propagation', 'case:line-count', 'err', 'ok'],
+        must_cover=['case:direction', 'case:format', 'case:affects', 'case:severity', 'case:numeric-keys', 'case:regex', 'case:propagation', 'case:line-count', 'case:async', 'err', 'ok'],
         explanation='accepted language of each attribute as a Z3 formula over the value bytes: PC∧reject∧Ok and PC∧accept∧Err asked on every path')
 
 
